@@ -31,7 +31,7 @@ RULE = ("programs from the typed generator ('planner_state' and default profiles
 ASSUMPTIONS = ["cloudpickle-free: plain pickle as used by dask for collections", "receiver has PYTHONPATH to the same user modules"]
 CONFIG = {
     "quick": {"budget_s": 50, "programs": 110, "case_timeout_s": 600},
-    "thorough": {"budget_s": 600, "programs": 400, "case_timeout_s": 240},
+    "thorough": {"budget_s": 600, "programs": 250, "case_timeout_s": 240},
 }
 FORMS = ["logical", "simplified", "optimized", "lowered"]
 
